@@ -18,3 +18,4 @@ open Cascette.Props.C15
 #print axioms witness_summary_hash
 #print axioms witness_mime_lookalike
 #print axioms witness_seqn_overflow
+#print axioms witness_boundary
